@@ -168,12 +168,14 @@ def cmd_check(args):
                         undecided.append(dict(unit=u.name, cfg=cfg, kind='extract', message='generator error: %r' % (e,)))
 
     seeds = [None] if tier == 'quick' else [None, seed + 1]
+    # the thorough tier's largest tuple arities sit close to the quick tier's resource limit (and it runs a second Z3 seed)
+    rlimit = M.RLIMIT if tier == 'quick' else str(max(int(M.RLIMIT), 80))
 
     def work(j):
         u, cfg, vac, path, text, log = j
         rs = []
         for s in (seeds if not vac else [None]):
-            r = M.run_verus(path, seed=s, use_cache=(tier == 'quick'))
+            r = M.run_verus(path, rlimit=rlimit, seed=s, use_cache=(tier == 'quick'))
             if not vac and not r.get('tool_error') and not r.get('ok'):
                 # second opinion before anything is reported as refuted: the same obligations with Verus' loop isolation
                 # switched off (facts about locals bound before a loop stay visible inside it -- e.g. a field read hoisted
@@ -184,7 +186,7 @@ def cmd_check(args):
                     alt = path[:-3] + '_iso.rs'
                     with open(alt, 'w') as fh:
                         fh.write(re.sub(r'(// @FN [^\n]*\n)', r'\1#[verifier::loop_isolation(false)]\n', text))
-                    r2 = M.run_verus(alt, seed=s, use_cache=(tier == 'quick'))
+                    r2 = M.run_verus(alt, rlimit=rlimit, seed=s, use_cache=(tier == 'quick'))
                     if r2.get('ok') and not r2.get('tool_error') and r2.get('errors', 1) == 0:
                         r2['second_opinion'] = 'loop_isolation(false)'
                         r = r2
@@ -445,7 +447,7 @@ def cmd_check(args):
         property_id=prop, tier=tier, seed=seed, level='proof',
         coverage=dict(
             obligations=n_obl, discharged=n_ok,
-            checker_cmd='verus <unit>__<cfg>.rs --output-json --time --multiple-errors 20 --error-format=json --rlimit %s (one file per unit x config, generated from /repo working tree by vx/gen.py)' % M.RLIMIT,
+            checker_cmd='verus <unit>__<cfg>.rs --output-json --time --multiple-errors 20 --error-format=json --rlimit %s (one file per unit x config, generated from /repo working tree by vx/gen.py)' % rlimit,
             trusted_base=TRUSTED_BASE,
             units=[dict(unit=u.name, configs=u.configs) for u in cone],
             files_verified=files, verus_functions_verified=verified_fns,
